@@ -224,7 +224,7 @@ func ParseMxFunctionParameters(parameters string) ([]MurexFuncParam, error) {
 				mfp = append(mfp, MurexFuncParam{})
 				counter++
 				context = fpcNameStart
-			case fpcTypeRead, fpcDescEnd, fpcDefaultEnd:
+			case fpcTypeRead, fpcDescStart, fpcDescEnd, fpcDefaultEnd:
 				mfp = append(mfp, MurexFuncParam{})
 				counter++
 				context = fpcNameStart
